@@ -31,6 +31,8 @@ type vpC10Req struct {
 	Proto        string   // "HTTP/1.1" | "HTTP/1.0"
 	ConnLines    []string // values of Connection field lines
 	HandlerClose bool
+	CloseVia     int  // how the handler asks for close: 0 SetConnectionClose, 1 Header.Set, 2 Header.Add, 3 Header.SetBytesKV, with the field name spelled as in CloseName
+	CloseName    string
 	Timeout      bool // the handler answers through ctx.TimeoutError (the server then swaps in a fresh RequestCtx)
 }
 
@@ -38,6 +40,7 @@ type vpC10Cfg struct {
 	DisableKeepalive bool
 	MaxReqs          int
 	RMU              bool
+	NoNorm           bool // Server.DisableHeaderNamesNormalizing
 }
 
 func vpC10HasToken(lines []string, tok string) bool {
@@ -71,13 +74,23 @@ func vpC10RunServer(cfg vpC10Cfg, reqs []vpC10Req) (steps []vpC10Step, fail stri
 		DisableKeepalive:   cfg.DisableKeepalive,
 		MaxRequestsPerConn: cfg.MaxReqs,
 		ReduceMemoryUsage:  cfg.RMU,
+		DisableHeaderNamesNormalizing: cfg.NoNorm,
 		Logger:             vpNopLogger{},
 		Handler: func(ctx *RequestCtx) {
 			mu.Lock()
 			i := cur
 			mu.Unlock()
 			if i < len(reqs) && reqs[i].HandlerClose {
-				ctx.SetConnectionClose()
+				switch reqs[i].CloseVia {
+				case 1:
+					ctx.Response.Header.Set(reqs[i].CloseName, "close")
+				case 2:
+					ctx.Response.Header.Add(reqs[i].CloseName, "close")
+				case 3:
+					ctx.Response.Header.SetBytesKV([]byte(reqs[i].CloseName), []byte("close"))
+				default:
+					ctx.SetConnectionClose()
+				}
 			}
 			ctx.SetBodyString(fmt.Sprintf("r%d", i))
 			if i < len(reqs) && reqs[i].Timeout {
@@ -237,6 +250,7 @@ func TestVP_C10_Server(t *testing.T) {
 			DisableKeepalive: rapid.IntRange(0, 5).Draw(t, "dka") == 0,
 			MaxReqs:          rapid.SampledFrom([]int{0, 0, 1, 2, 3}).Draw(t, "maxreqs"),
 			RMU:              rapid.Bool().Draw(t, "rmu"),
+			NoNorm:           rapid.IntRange(0, 3).Draw(t, "nonorm") == 0,
 		}
 		n := rapid.IntRange(1, 6).Draw(t, "n")
 		var reqs []vpC10Req
@@ -258,6 +272,10 @@ func TestVP_C10_Server(t *testing.T) {
 				break
 			}
 			r.HandlerClose = rapid.IntRange(0, 7).Draw(t, "hclose") == 0
+			if r.HandlerClose {
+				r.CloseVia = rapid.IntRange(0, 3).Draw(t, "closeVia")
+				r.CloseName = rapid.SampledFrom([]string{"Connection", "Connection", "connection", "CONNECTION", "conNECtion"}).Draw(t, "closeName")
+			}
 			r.Timeout = rapid.IntRange(0, 4).Draw(t, "timeout") == 0
 			if vpC10HasToken(r.ConnLines, "close") || (r.HandlerClose && !r.Timeout) || (r.Proto == "HTTP/1.0" && !vpC10HasToken(r.ConnLines, "keep-alive")) {
 				causes++
